@@ -79,3 +79,13 @@ package authenticode
 //@   on call crypto/hmac.Equal(a, b) ret (r): digestOK = (r && recomputed != nil && sameslice(a, recomputed.Imprint) && sameslice(b, indirect.MessageDigest.Digest))
 //@   ensures @cms_signature_verified ret1 == nil ==> cmsOK
 //@   ensures @content_digest_recomputed_and_compared ret1 == nil && !skipDigests ==> digestOK
+//@
+//@ func (*imageHasher).section
+//@   property C09
+//@   requires len(h.pageBuf) >= 1 && sh.PointerToRawData + sh.SizeOfRawData <= 4294967295
+//@   before call invoke io.Reader.Read(_, _): assert @pages_never_follow_read_boundaries false
+//@   before call io.ReadFull(src, b): assert @whole_pages_are_read src == r && len(b) == min(remaining, len(h.pageBuf)) && samearr(b, h.pageBuf)
+//@   before call (*imageHasher).addPageHash(_, off, b, rm): assert @page_offset_is_file_offset_of_the_page \
+//@        off == sh.PointerToRawData + (sh.SizeOfRawData - remaining) && rm == 0
+//@   loop 0 sig "for remaining > 0" invariant 0 <= remaining && remaining <= sh.SizeOfRawData && position == sh.PointerToRawData + (sh.SizeOfRawData - remaining) && \
+//@        (remaining > 0 ==> (sh.SizeOfRawData - remaining) % len(h.pageBuf) == 0) && len(h.pageBuf) >= 1
